@@ -165,7 +165,7 @@ mut('c10-early-exit', 'C10', 'C10.JOIN[recursive_batch_insert_nodes]', azks, '''
             let right_child_label = current_node.get_child_label(Direction::Right);
             Some(''', '''        let right_result = if !right_azks_element_set.is_empty() {
             let right_child_label = current_node.get_child_label(Direction::Right);
-            if insert_mode == InsertMode::Auditor && right_child_label.is_none() && is_new {
+            if matches!(insert_mode, InsertMode::Auditor) && right_child_label.is_none() && is_new {
                 return Err(AkdError::TreeNode(TreeNodeError::NoDirection(current_node.label, None)));
             }
             Some(''', 'an error exit between the spawn and the join (F8 pattern)', also=['C14'])
@@ -246,7 +246,7 @@ mut('c13-epoch-hash-mix', 'C13', 'C13.SNAP[get_epoch_hash]', dirf, '''        le
 
 # ---------------- C01 / C02 / C03 / C04 / C14 / C20
 mut('c01-double-increment', 'C01', 'C01.E.once', azks, '''        if !azks_element_set.is_empty() {
-            // call recursive batch insert on the root''', '''        if !azks_element_set.is_empty() && insert_mode == InsertMode::Auditor && self.num_nodes == u64::MAX {
+            // call recursive batch insert on the root''', '''        if !azks_element_set.is_empty() && matches!(insert_mode, InsertMode::Auditor) && self.num_nodes == u64::MAX {
             self.increment_epoch();
         }
         if !azks_element_set.is_empty() {
